@@ -251,6 +251,9 @@ def pipeline_level(chk, thorough):
                       sample={"type": typ, "content": content.decode("utf-8", "replace"), "outcome": outcome[0]} if label[0] == "random" and nontriv else None)
             pipe_terms.append("(%s, zoo, %s, %s)" % (U.c_rtype(typ), cstr(content), U.c_outcome(outcome)))
             pipe_cases.append((typ, content))
+            if label[0] == "seq" and outcome[0] != "ok" and not (outcome[0] == "missingurl" and 5 in label[1]):
+                chk.fail("c04-process-exception", "_process_dep_declarations fails on a document of valid markers of live classes: %r" % (outcome,),
+                         {"kind": "pipe", "type": typ, "content": content.decode()})
             # direct oracle on well-formed sequences: inline JS/CSS once, first-appearance order; no marker left
             if label[0] == "seq" and outcome[0] == "ok":
                 order = U.first_occ(list(label[1]))
